@@ -851,12 +851,12 @@ def nud__attribute_kind_test_or_axis(self: XPathToken) -> XPathToken:
         self.label = 'kind test'
         self.parser.advance('(')
         if self.parser.next_token.symbol != ')':
-            self.parser.next_token.expected('(name)', '*', ':')
+            self.parser.expected_next('(name)', '*', ':')
             self[:] = self.parser.expression(5),
 
             if self.parser.next_token.symbol == ',':
                 self.parser.advance(',')
-                self.parser.next_token.expected('(name)', ':')
+                self.parser.expected_next('(name)', ':')
                 self[1:] = self.parser.expression(5),
 
         self.parser.advance(')')
